@@ -906,11 +906,22 @@ func (r *awsChunkReadCloser) validateTrailerChecksum(checksumHeader string) erro
 	return nil
 }
 
+// unexpectedEOF maps an end of the underlying stream inside the chunk framing
+// to io.ErrUnexpectedEOF. The only regular end of an aws-chunked body is the
+// zero-length chunk (plus trailers), which Read reports as io.EOF itself; a
+// body that simply stops earlier must not look like a complete payload.
+func unexpectedEOF(err error) error {
+	if err == io.EOF {
+		return io.ErrUnexpectedEOF
+	}
+	return err
+}
+
 func (r *awsChunkReadCloser) Read(p []byte) (n int, err error) {
 	if r.chunkBytesRemaining <= 0 {
 		chunkMetadata, err := r.innerBuf.ReadBytes('\n')
 		if err != nil {
-			return 0, err
+			return 0, unexpectedEOF(err)
 		}
 		split := bytes.SplitN(bytes.Trim(chunkMetadata, "\r\n"), []byte(";chunk-signature="), 2)
 		hexLen := string(split[0])
@@ -956,7 +967,7 @@ func (r *awsChunkReadCloser) Read(p []byte) (n int, err error) {
 			} else {
 				_, err := r.innerBuf.Discard(2) // Discard the final \r\n
 				if err != nil {
-					return 0, err
+					return 0, unexpectedEOF(err)
 				}
 			}
 			return 0, io.EOF // End of the chunked transfer
@@ -967,6 +978,7 @@ func (r *awsChunkReadCloser) Read(p []byte) (n int, err error) {
 		p = p[:r.chunkBytesRemaining] // Limit the read to the remaining bytes in the chunk
 	}
 	n, err = io.ReadFull(r.innerBuf, p)
+	err = unexpectedEOF(err)
 	if !r.skipChunkValidation {
 		r.chunkHasher.Write(p[:n])
 	}
@@ -977,7 +989,7 @@ func (r *awsChunkReadCloser) Read(p []byte) (n int, err error) {
 	if r.chunkBytesRemaining == 0 {
 		_, err := r.innerBuf.Discard(2) // Discard the trailing \r\n
 		if err != nil {
-			return 0, err
+			return 0, unexpectedEOF(err)
 		}
 		if !r.skipChunkValidation {
 			err = r.validateSignature()
